@@ -285,6 +285,29 @@ func progs() []prog {
 				t.Stop()
 			}, Observe: obs(func() string { return got })}
 		}},
+		{name: "a time-out that was not taken leaves nothing behind", outcomes: 2, sc: func() explore.Exec {
+			got := ""
+			return explore.Exec{Body: func() {
+				c := make(chan int, 1)
+				mc.Go(func() { mc.Send(c, 7) })
+				sel := mc.NewSelect(false)
+				rv := mc.SelAddRecv(sel, (<-chan int)(c))
+				mc.SelAddRecv(sel, mc.After(time.Second))
+				switch sel.Wait() {
+				case 0:
+					v, _ := rv.Get()
+					got = fmt.Sprint("value ", v)
+				case 1:
+					got = "timed out"
+				}
+			}, Observe: func(r *mc.Result) (string, string) {
+				// the value nobody received after a time-out is a leftover, the tick nobody received is not
+				if (got == "timed out") != (r.Buffered == 1) || r.Buffered > 1 {
+					return fmt.Sprintf("BAD: %s with %d leftovers", got, r.Buffered), ""
+				}
+				return got, ""
+			}}
+		}},
 		{name: "a stopped timer never fires", outcomes: 1, deadlock: true, sc: func() explore.Exec {
 			got := ""
 			return explore.Exec{Body: func() {
